@@ -103,9 +103,40 @@ func runConc(c *run.Ctx, cs *Case) bool {
 	return true
 }
 
+// pooled per-evaluation state (the wrapper a {! ..} formula reads its variables through, sub-contexts of array helpers,
+// the argument contexts of funcs-file calls): many evaluators on one stage, contexts that take the error path mixed
+// with contexts that do not, many rounds - a pooled object handed back a few instructions early is reused by another
+// evaluator inside that window.
+var pooledStateTemplates = []string{
+	"{! [0]+[1]}", "{! x*2}", "{! [0]>[1]}", "{sumi {! [0]+1} 2}", "{! abs([0])}|{! x}", "{@map {0} {! [0]*2}}", "{@reduce {0} {sumi {0} {1}}}", "{@filter {0} {isint {0}}}",
+}
+
+func pooledStateCtxs() []Ctx {
+	return []Ctx{
+		{E: []string{"5", "7.5"}, K: map[string]string{"x": "3"}},
+		{E: []string{"abc", "2"}, K: map[string]string{"x": "n/a"}},
+		{E: []string{"12", ""}, K: map[string]string{"x": "1e3"}},
+		{E: []string{"", "x y"}, K: map[string]string{"x": ""}},
+		{E: []string{"1\x002\x00z\x004", "9"}, K: map[string]string{"x": "-4"}},
+		{E: []string{"0", "0"}, K: map[string]string{"x": "zero"}},
+	}
+}
+
 func concurrent(c *run.Ctx, forKeys bool, N int) {
 	W := c.N(8, 16)
 	per := c.N(300, 2000) // evaluations per goroutine
+	for i, tpl := range pooledStateTemplates {
+		if !c.Mine(i) {
+			continue
+		}
+		cs := &Case{Kind: "conc", Tpl: tpl, Ctxs: pooledStateCtxs(), W: 12, Rounds: c.N(4000, 40000)}
+		c.Begin(cs, 0)
+		c.Nontrivial("conc-pooled", tpl)
+		c.Count("conc_cases", 1)
+		c.Count("conc_pooled_state_cases", 1)
+		runCase(c, cs)
+		c.End()
+	}
 	for i := 0; i < N; i++ {
 		if !c.Mine(i) {
 			continue
